@@ -222,6 +222,10 @@ func (c *memChecker) store(t *rapid.T) {
 			v = expr.NewRegLoad(irsem.RegKeys[rapid.IntRange(0, 3).Draw(t, "str")], irsem.GenWidth(t, irsem.GenCfg{MaxWidth: c.valMaxWidth()}, "strw"))
 		}
 	}
+	if !c.constOnly && len(c.returned) > 0 && rapid.IntRange(0, 3).Draw(t, "stLoaded") == 0 {
+		// copy: store a value an earlier Load returned (possibly at another width)
+		v = c.returned[rapid.IntRange(0, len(c.returned)-1).Draw(t, "stLoadedWhich")].e
+	}
 	// partial overwrite statistics
 	covered, all := 0, 0
 	for i := 0; i < int(w); i++ {
